@@ -12,6 +12,8 @@ St == CASE st.part = "N" -> [cfg |-> st.cfg, warm |-> st.warm, tr |-> st.tr, k |
                                                                   sover |-> st.cert.exts[i].sig.over]]]]
        [] st.part = "U" -> [via |-> st.via, sec |-> st.sec, mux |-> st.mux, role |-> st.role, named |-> st.named,
                             ans |-> st.ans, done |-> st.done, ok |-> st.ok, rem |-> st.rem]
+       [] st.part = "F" -> [proto |-> st.proto, side |-> st.side, named |-> st.named, point |-> st.point,
+                            kind |-> st.kind, done |-> st.done, ok |-> st.ok]
        [] st.part = "H" -> [path |-> st.path, ownerA |-> st.ownerA, phase |-> st.phase, res |-> st.res,
                             inbound |-> st.inbound, arrived |-> st.arrived]
        [] OTHER -> [outs |-> st.outs, warm |-> st.warm, warmed |-> st.warmed, done |-> st.done, res |-> st.res, visible |-> st.visible,
@@ -22,4 +24,5 @@ MCInitT == InitT /\ PrintT(<<"VFINIT", ToJson(St)>>)
 MCInitS == InitS /\ PrintT(<<"VFINIT", ToJson(St)>>)
 MCInitH == InitH /\ PrintT(<<"VFINIT", ToJson(St)>>)
 MCInitU == InitU /\ PrintT(<<"VFINIT", ToJson(St)>>)
+MCInitF == InitF /\ PrintT(<<"VFINIT", ToJson(St)>>)
 =============================================================================
